@@ -797,10 +797,8 @@ def to_id(f: Callable[[T], Any]) -> Callable[[T], T]:
 
 
 def instantiate_escaped_symbols(text: str) -> str:
-    backslash_escape_placeholder = "$$BESC$$"
-    assert backslash_escape_placeholder not in text
-
     repl_map = {
+        r"\\": "\\",
         r"\b": "\b",
         r"\t": "\t",
         r"\n": "\n",
@@ -810,11 +808,14 @@ def instantiate_escaped_symbols(text: str) -> str:
         r"\x0c": "\x0c",
     } | {r"\x" + hex(i)[2:].rjust(2, "0"): chr(i) for i in range(0, 256)}
 
-    text = text.replace("\\\\", backslash_escape_placeholder)
-    for escaped_char in repl_map:
-        text = text.replace(escaped_char, repl_map[escaped_char])
-
-    return text.replace(backslash_escape_placeholder, "\\")
+    # Replace all escape sequences in a single left-to-right pass (longest match
+    # first), such that an escaped backslash is never re-interpreted together with
+    # the characters following it.
+    return re.sub(
+        "|".join(re.escape(escaped) for escaped in sorted(repl_map, key=len, reverse=True)),
+        lambda match: repl_map[match.group(0)],
+        text,
+    )
 
 
 def get_elem_by_equivalence(
